@@ -714,3 +714,45 @@ Theorem C05_facts_shape_forwards :
   Gen_ArrayFacts.vector_clear = ["Clear(CXXDefaultArgExpr)"]%string /\ Gen_ArrayFacts.vector_pop_back = ["RemoveBack(CXXDefaultArgExpr)"]%string.
 Proof. exact FactsProofs.facts_shape_forwards. Qed.
 Print Assumptions C05_facts_shape_forwards.
+
+(* ================= Array::AddBack(Item&&) executed from the AST facts; statement structure of the remaining operations ================= *)
+(* a[i] (ANY element) or an external object moved to the back, with or without reallocation: itemIndex is taken before pvGrow, the items pointer
+   after it, the aliased element is re-indexed in the new buffer: the appended cell holds the PRE-CALL value *)
+Theorem C05_gen_add_back_move_from_facts_spec :
+  forall (growOnReserve : bool) (items : Z -> Z) (cnt cap_ it tmp : Z),
+    (0 <= cnt)%Z -> (cnt <= cap_)%Z -> (cnt + 1 < InsertGlue.U64)%Z -> (InsertGlue.U64 <= tmp)%Z -> ((0 <= it < cnt)%Z \/ (InsertGlue.U64 <= it)%Z) ->
+    exists items' cap', FactsProofs.gen_add_back_move_f growOnReserve items cnt cap_ it tmp = GenPrelude.Ok (items', (cnt + 1)%Z, cap') /\
+      (cnt + 1 <= cap')%Z /\ items' cnt = items it /\ (forall j, (0 <= j < cnt)%Z -> items' j = items j).
+Proof. exact FactsProofs.gen_add_back_move_f_spec. Qed.
+Print Assumptions C05_gen_add_back_move_from_facts_spec.
+
+(* non-vacuity / the M3 mutant: [7] full, AddBack(std::move(a[0])): 7 is appended; with the items pointer taken before the growth: poison *)
+Theorem C05_stale_item_after_grow_is_wrong :
+  let items := fun j => if Z.eqb j 0 then 7%Z else 0%Z in
+  FactsProofs.cellat 1 (FactsProofs.run_macts true 1 0 [Some FactsProofs.MIndexOf; Some FactsProofs.MGrow; Some FactsProofs.MRefreshItems;
+      Some FactsProofs.MMoveCreateCond; Some FactsProofs.MSetCount] items 1 1 false false true) = Some 7%Z /\
+  FactsProofs.cellat 1 (FactsProofs.run_macts true 1 0 [Some FactsProofs.MIndexOf; Some FactsProofs.MRefreshItems; Some FactsProofs.MGrow;
+      Some FactsProofs.MMoveCreateCond; Some FactsProofs.MSetCount] items 1 1 false false true) = Some FactsProofs.poison.
+Proof. exact FactsProofs.stale_item_after_grow_is_wrong. Qed.
+Print Assumptions C05_stale_item_after_grow_is_wrong.
+
+(* statement structure (AST facts) of AddBack(Item&&) / pvAddBackGrow(Item&&), Insert(index, Item&&), InsertCrt (temporary BEFORE growth), the
+   input-iterator ArrayShifter::Insert (item k to index + k), RemoveBack / pvRemoveBack / Clear and the three-way SetCountCrt *)
+Theorem C05_facts_shape_more :
+  Gen_ArrayFacts.add_back_move_stmts = ["if (GetCount() < GetCapacity()) { pvAddBackNogrow(ctor{GetMemManager(), move(item)}) } else { pvAddBackGrow(move(item)) }"]%string /\
+  map FactsProofs.mact_of Gen_ArrayFacts.add_back_grow_move_stmts =
+    [Some FactsProofs.MNop; Some FactsProofs.MNop; Some FactsProofs.MIndexOf; Some FactsProofs.MGrow; Some FactsProofs.MRefreshItems;
+     Some FactsProofs.MMoveCreateCond; Some FactsProofs.MSetCount] /\
+  Gen_ArrayFacts.insert_rvalue_stmts = ["decl initCount = GetCount()"; "decl grow = ((initCount + 1) > GetCapacity())"; "decl itemIndex = pvIndexOf(item)";
+    "if (grow || ((index <= itemIndex) && (itemIndex < initCount))) { InsertVar(index, move(item)) } else { InsertNogrow(*CXXThisExpr, index, move(item)) }"]%string /\
+  Gen_ArrayFacts.insert_crt_stmts = ["decl itemHandler = ctor{GetMemManager(), forward(itemCreator)}"; "decl newCount = (GetCount() + 1)";
+    "if (newCount > GetCapacity()) { pvGrow(newCount, add) }"; "InsertNogrow(*CXXThisExpr, index, move(*operator&(itemHandler)))"]%string /\
+  Gen_ArrayFacts.shifter_insert_input_stmts = ["typedef"; "decl memManager = GetMemManager()"; "decl count = 0";
+    "for (decl iter = ctor{move(begin)}; operator!=(iter, ctor{end}); (CStyleCastExpr , ++count)) { InsertCrt((index + count), ctor{memManager, operator*(iter)}) }"]%string /\
+  Gen_ArrayFacts.remove_back_stmts = ["DoStmt"; "pvRemoveBack(count)"]%string /\
+  Gen_ArrayFacts.pv_remove_back_stmts = ["decl initCount = GetCount()"; "Destroy(GetMemManager(), ((GetItems() + initCount) - count), count)"; "SetCount((initCount - count))"]%string /\
+  Gen_ArrayFacts.clear_stmts = ["if shrink { Clear() } else { pvRemoveBack(GetCount()) }"]%string /\
+  Gen_ArrayFacts.set_count_crt_stmts = ["decl newCount = count"; "decl initCount = GetCount()"; "decl initCapacity = GetCapacity()";
+    "if (newCount <= initCount) { pvRemoveBack((initCount - newCount)) } else { if (newCount <= initCapacity) { decl items = GetItems(); decl index = initCount; try { for (; (index < newCount); ++index) { operator()(itemMultiCreator, (items + index)) } }; SetCount(newCount) } else { decl newCapacity = pvGrowCapacity(initCapacity, newCount, reserve, CXXBoolLiteralExpr); decl itemsCreator = LambdaExpr; Reset(newCapacity, newCount, itemsCreator) } }"]%string.
+Proof. exact FactsProofs.facts_shape_more. Qed.
+Print Assumptions C05_facts_shape_more.
